@@ -317,18 +317,22 @@ def rand_leaf_vals(d, rng, mode):
     return arr.astype(dt)
 
 
-def make_elem(d, space, rng, mode):
-    """(odl element, flat list of complex values in depth-first C order)."""
+def make_elem(d, space, rng, mode, flip=False):
+    """(odl element, flat list of complex values in depth-first C order).  `flip` gives the
+    element the opposite memory layout (mixed C/F operands)."""
     if d[0] == 'P':
         parts, flat = [], []
         for c, sp in zip(d[1], space.spaces):
-            e, f = make_elem(c, sp, rng, mode)
+            e, f = make_elem(c, sp, rng, mode, flip)
             parts.append(e)
             flat.extend(f)
         return space.element(parts), flat
     vals = rand_leaf_vals(d, rng, mode)
     arr = vals.reshape(leaf_shape(d))
-    arr = np.asfortranarray(arr) if leaf_layout(d) == 'F' else np.ascontiguousarray(arr)
+    lay = leaf_layout(d)
+    if flip:
+        lay = 'C' if lay == 'F' else 'F'
+    arr = np.asfortranarray(arr) if lay == 'F' else np.ascontiguousarray(arr)
     return space.element(arr), vals.tolist()
 
 
@@ -640,6 +644,21 @@ def pspace_zoo(ctx, thr):
         p = p_all if p_all is not None else rng.choice([1, 2, INF, 1.5, 3])
         return ('P', comps, pwt(m, gen=rng.random() < 0.2), p)
 
+    # systematic cross: weighting kind x exponent x dtype class on flat products
+    for wk in ['none', 'const', 'array', 'const_gen']:
+        for p in [1, 2, INF, 1.5, 3]:
+            for cplx in [False, True]:
+                m = rng.choice([2, 3])
+                comps = [leaf(cplx, rng.choice([p, 2])) for _ in range(m)]
+                if wk == 'none':
+                    wt = None
+                elif wk == 'const':
+                    wt = ('c', rng.choice([0.5, 2.0, 4.0]))
+                elif wk == 'const_gen':
+                    wt = ('c', rng.choice([0.3, 1.7]))
+                else:
+                    wt = ('a', [rng.choice([0.5, 2.0, 3.0, 0.25]) for _ in range(m)])
+                out.append(('P', comps, wt, p))
     n = 40 if quick else 400
     for i in range(n):
         cplx = rng.random() < 0.3
@@ -766,8 +785,8 @@ def run_case(ctx, d, vseed, lines, recs, collect=True):
         modes = ['rand', 'rand', 'rand']
         special = rng.choice(['none', 'zero', 'spike', 'one', 'none'])
         x, X = make_elem(d, space, rng, special if special != 'none' else 'rand')
-        y, Y = make_elem(d, space, rng, 'rand')
-        z, Z = make_elem(d, space, rng, 'rand')
+        y, Y = make_elem(d, space, rng, 'rand', flip=rng.random() < 0.4)
+        z, Z = make_elem(d, space, rng, 'rand', flip=rng.random() < 0.2)
     except Exception as e:  # noqa
         bad('element creation failed', '{}: {}'.format(type(e).__name__, e))
         return finish(ctx, d, rep, problems, False)
@@ -845,9 +864,11 @@ def run_case(ctx, d, vseed, lines, recs, collect=True):
                 recs.append((d, rep, 'inner', ixy, exact, scale, otol))
     else:
         o_xy = outcome(lambda: x.inner(y))
-        if o_xy[0] != 'err:notimpl':
+        if o_xy[0] == 'ok':
             bad('inner defined for exponent != 2', str(o_xy)[:120])
-        if collect:
+        elif o_xy[0] != 'err:notimpl':
+            bad('inner raised', '{} {}'.format(*o_xy))
+        if collect and o_xy[0] == 'err:notimpl':
             lines.append('inner sp={} x={} y={}'.format(spec, cwire(X), cwire(Y)))
             recs.append((d, rep, 'inner', 'err:notimpl', True, scale, otol))
 
